@@ -180,6 +180,10 @@ def generate(seed, mode):
                 ops.extend(pair)
                 ops.append({'op': 'probe', 'k': k})
                 continue
+            if shape in ('chain', 'dynamic', 'subs') and o.random() < 0.03:
+                ops.append({'op': 'regen', 'r': o.randrange(nR), 'v': o.randrange(len(vals)), 'key': 0 if o.random() < 0.6 else o.randrange(64), 'k': k})
+                ops.append({'op': 'probe', 'k': k})
+                continue
             if shape == 'chain' and o.random() < 0.1:
                 # the order of the bases of a registry that has several is reversed (nothing else changes), or the top-most
                 # registry above X gets other bases (a join below it has to follow), then the probe
@@ -433,16 +437,30 @@ def execute(program, ctx, mode):
     alive = [True] * nR
     mutlog = []         # replayable registry mutations (real objects inside)
 
+    applyno = [0]
+
+    def shaped(req):
+        """the `required` argument of a mutator as a tuple, a list, a one-shot iterator or a generator, in rotation"""
+        applyno[0] += 1
+        sh = applyno[0] % 4
+        if sh == 1:
+            return list(req)
+        if sh == 2:
+            return iter(list(req))
+        if sh == 3:
+            return (x for x in list(req))
+        return tuple(req)
+
     def apply(rs, m):
         k = m[0]
         if k == 'reg':
-            rs[m[1]].register(list(m[2]) if len(m[4]) == 1 else m[2], m[3], m[4], m[5])      # (a list is as good as a tuple)
+            rs[m[1]].register(shaped(m[2]), m[3], m[4], m[5])
         elif k == 'unreg':
-            rs[m[1]].unregister(m[2], m[3], m[4], m[5])
+            rs[m[1]].unregister(shaped(m[2]), m[3], m[4], m[5])
         elif k == 'sub':
-            rs[m[1]].subscribe(m[2], m[3], m[4])
+            rs[m[1]].subscribe(shaped(m[2]), m[3], m[4])
         elif k == 'unsub':
-            rs[m[1]].unsubscribe(m[2], m[3], m[4])
+            rs[m[1]].unsubscribe(shaped(m[2]), m[3], m[4])
         elif k == 'bases':
             rs[m[1]].__bases__ = tuple(rs[b] for b in m[2])
         elif k == 'rebuild':
@@ -983,7 +1001,7 @@ def execute(program, ctx, mode):
         for (q, p, n) in keys:
             if p is None:
                 continue
-            g = reg.registered(real_req_none(q, len(live)), P[p], n)
+            g = reg.registered(shaped(real_req_none(q, len(live))), P[p], n)
             w_ = live.get((r, q, p, n))
             if g is not w_:
                 ctx.violation('C09', 'registered', 'C09|registered|%s' % ('stale' if w_ is None else ('missing' if g is None else 'wrong')),
@@ -994,7 +1012,7 @@ def execute(program, ctx, mode):
         for (q, p) in list(skeys)[:6]:
             under = [c for a, b, c in ws if (a, b) == (q, p)]
             for v in vals:
-                g = reg.subscribed(real_req_none(q, len(subs)), prov(p), v)
+                g = reg.subscribed(shaped(real_req_none(q, len(subs))), prov(p), v)
                 w_ = v if any(v == u for u in under) else None
                 if g is not w_:
                     ctx.violation('C09', 'subscribed', 'C09|subscribed|%s' % ('stale' if w_ is None else 'missing'),
@@ -1304,6 +1322,32 @@ def execute(program, ctx, mode):
                 rb[r] = cands
                 last_mut[0] = 'registry-bases'
                 ctx.log(step, 'rbases', r, cands)
+                opk = None
+            elif name == 'regen':
+                # rebuild() of a registry, then as many further real changes as bring its change counter back to the value it
+                # had before -- with different content, and with no lookup anywhere in between: whoever compares counters
+                # to detect changes must not be fooled by the coincidence
+                r = op['r'] % nR
+                if not alive[r]:
+                    continue
+                g0 = regs[r]._generation
+                mutate(('rebuild', r))
+                va, vb = vals[op['v'] % len(vals)], vals[(op['v'] + 1) % len(vals)]
+                fk = W['keypool'][op['key'] % len(W['keypool'])]
+                rq = tuple(norm([SP[x % len(SP)] if LK[x % len(LK)] not in SP else LK[x % len(LK)] for x in fk['req']]))
+                pp = fk['p'] % (nP + 1)
+                pp = pp if pp < nP else 0
+                nm = NAMES[fk['n'] % 3]
+                n_ = 0
+                while regs[r]._generation != g0 and regs[r]._generation < g0 and n_ < 60:
+                    v = va if live.get((r, rq, pp, nm)) is not va else vb
+                    mutate(('reg', r, real_req(rq), P[pp], nm, v))
+                    live[(r, rq, pp, nm)] = v
+                    n_ += 1
+                if regs[r]._generation == g0:
+                    ctx.probe('change-counter-back-at-an-earlier-value')
+                last_mut[0] = 'register' if n_ else 'rebuild'
+                ctx.log(step, 'regen', r, n_)
                 opk = None
             elif name == 'rebuild':
                 r = op['r'] % nR
